@@ -787,7 +787,8 @@ fn report(case: &Case, args: &Args, pg: &Mutex<Progress>, o: IterObs) {
     let maxe = o.execs.values().copied().max().unwrap_or(0);
     let mut tfile = String::from("-");
     if let Some(dir) = &args.trace_dir {
-        let interesting = o.blocks > 0 || iter < 2;
+        // with the memo-table records on (H10) every schedule is replayed, not only those with a wait
+        let interesting = o.blocks > 0 || iter < 2 || args.fetch_trace;
         if interesting && pg.traces_written < args.trace_cap {
             for (n, seg) in o.segments.iter().enumerate() {
                 if seg.is_empty() {
